@@ -12,6 +12,10 @@
 -/
 import MinLex.Model.Env
 import MinLex.Proofs.Bigint
+import MinLex.Proofs.Vec
+import MinLex.Model.ShlLimbsLow
+import MinLex.Proofs.ParseNumber
+import MinLex.Proofs.Lemire
 import Mathlib.Tactic.Linarith
 import Mathlib.Tactic.Ring
 namespace MinLex
@@ -1211,6 +1215,1189 @@ theorem slowI_of_slow {cap : Option Nat} {T : PowTables} {F : FloatC} {num : Num
     rw [h1] at h
     simp only [Option.map_some, Option.some.injEq] at h
     exact ⟨l, by rw [← h]⟩
+
+end Sites
+end MinLex
+
+namespace MinLex
+namespace Sites
+open LowVec C13
+
+-- ================================================================ S8: `shl_limbs` on the raw buffer
+
+theorem readLog_eq (buf : Nat → Nat) (i k : Nat) :
+    readLog buf i k = (slice buf i k, (List.range' i k).map Access.read) := by
+  induction k generalizing i with
+  | zero => simp [readLog]
+  | succ k ih => simp only [readLog, ih, slice_succ_left, List.range'_succ, List.map_cons]
+
+theorem writeLog_eq (buf : Nat → Nat) (i : Nat) (xs : List Nat) :
+    writeLog buf i xs = (copyTo buf i xs, (List.range' i xs.length).map Access.write) := by
+  induction xs generalizing buf i with
+  | nil => simp [writeLog, copyTo]
+  | cons x xs ih => simp only [writeLog, ih, copyTo, List.length_cons, List.range'_succ, List.map_cons]
+
+theorem zeroLog_eq (buf : Nat → Nat) (i k : Nat) :
+    zeroLog buf i k = (fill 0 buf i k, (List.range' i k).map Access.write) := by
+  induction k generalizing buf i with
+  | zero => simp [zeroLog, fill]
+  | succ k ih => simp only [zeroLog, ih, fill, List.range'_succ, List.map_cons]
+
+theorem fill_ge (x : Nat) (buf : Nat → Nat) (i n j : Nat) (hj : i + n ≤ j) : fill x buf i n j = buf j := by
+  induction n generalizing buf i with
+  | zero => rfl
+  | succ n ih =>
+    rw [fill, ih _ _ (by omega)]
+    have : j ≠ i := by omega
+    simp [write, this]
+
+theorem copyTo_ge (buf : Nat → Nat) (i : Nat) (s : List Nat) (j : Nat) (hj : i + s.length ≤ j) :
+    copyTo buf i s j = buf j := by
+  induction s generalizing buf i with
+  | nil => rfl
+  | cons x xs ih =>
+    rw [copyTo, ih _ _ (by simp only [List.length_cons] at hj; omega)]
+    have : j ≠ i := by simp only [List.length_cons] at hj; omega
+    simp [write, this]
+
+theorem copyTo_mid (buf : Nat → Nat) (i : Nat) (s : List Nat) (j : Nat) (h1 : i ≤ j) (h2 : j < i + s.length) :
+    copyTo buf i s j = s.getD (j - i) 0 := by
+  induction s generalizing buf i with
+  | nil => simp at h2; omega
+  | cons x xs ih =>
+    rw [copyTo]
+    by_cases hji : j = i
+    · subst hji
+      rw [copyTo_lt _ _ _ _ (by omega)]
+      simp [write]
+    · simp only [List.length_cons] at h2
+      rw [ih _ _ (by omega) (by omega)]
+      have : j - i = (j - (i + 1)) + 1 := by omega
+      rw [this, List.getD_cons_succ]
+
+theorem slice_getD (buf : Nat → Nat) (i n k : Nat) (hk : k < n) : (slice buf i n).getD k 0 = buf (i + k) := by
+  unfold slice
+  rw [List.getD_eq_getElem?_getD, List.getElem?_map, List.getElem?_range' (by omega)]
+  simp
+
+/-- the logged buffer after `ptr::copy(src, src.add(n), len)`, pointwise -/
+theorem ptrCopy_get (buf : Nat → Nat) (n len j : Nat) :
+    (ptrCopyLog buf 0 n len).1 j = if n ≤ j ∧ j < n + len then buf (j - n) else buf j := by
+  unfold ptrCopyLog
+  simp only [readLog_eq, writeLog_eq]
+  split
+  · rename_i h
+    rw [copyTo_mid _ _ _ _ h.1 (by simpa using h.2), slice_getD _ _ _ _ (by omega), Nat.zero_add]
+  · rename_i h
+    by_cases hlt : j < n
+    · exact copyTo_lt _ _ _ _ hlt
+    · exact copyTo_ge _ _ _ _ (by simp; omega)
+
+/-- `memmove` as an implementation performs it for `dst > src` (highest index first) is the
+    documented "as if through a temporary" semantics -/
+theorem moveBack_eq_ptrCopy (buf : Nat → Nat) (n len : Nat) : moveBack buf n len = (ptrCopyLog buf 0 n len).1 := by
+  funext j
+  rw [ptrCopy_get]
+  induction len generalizing buf with
+  | zero => simp [moveBack]
+  | succ k ih =>
+    rw [moveBack, ih]
+    by_cases h1 : n ≤ j ∧ j < n + k
+    · rw [if_pos h1, if_pos ⟨h1.1, by omega⟩]
+      have : j - n ≠ n + k := by omega
+      simp [write, this]
+    · rw [if_neg h1]
+      by_cases h2 : j = n + k
+      · rw [if_pos ⟨by omega, by omega⟩]
+        subst h2
+        simp [write]
+      · rw [if_neg (by omega)]
+        simp [write, h2]
+
+/-- the access log of `shl_limbs`, explicitly: reads `0 … len-1`, writes `n … n+len-1`, writes `0 … n-1` -/
+theorem shlLimbsLogCap_log (c : Nat) (v : LowVec) (n : Nat) :
+    (shlLimbsLogCap c v n).2 =
+      if n + v.len > c ∨ v.len = 0 then []
+      else (List.range' 0 v.len).map Access.read ++ (List.range' n v.len).map Access.write ++
+           (List.range' 0 n).map Access.write := by
+  unfold shlLimbsLogCap
+  by_cases h1 : n + v.len > c
+  · rw [if_pos h1, if_pos (Or.inl h1)]
+  · rw [if_neg h1]
+    by_cases h2 : v.len = 0
+    · rw [if_neg (not_not.mpr h2), if_pos (Or.inr h2)]
+    · rw [if_pos h2, if_neg (by intro h; rcases h with h | h; exact h1 h; exact h2 h)]
+      unfold ptrCopyLog
+      simp only [readLog_eq, writeLog_eq, zeroLog_eq, slice_length]
+
+theorem shlLimbsLog_log (v : LowVec) (n : Nat) :
+    (shlLimbsLog v n).2 =
+      if n + v.len > CAP ∨ v.len = 0 then []
+      else (List.range' 0 v.len).map Access.read ++ (List.range' n v.len).map Access.write ++
+           (List.range' 0 n).map Access.write := shlLimbsLogCap_log CAP v n
+
+/-- `shl_limbs` on a raw buffer of `c` slots refines the abstract `shlLimbs (some c)` of the
+    big-integer model, whatever the slots `≥ len` contained -/
+theorem shlLimbsCap_refines (c : Nat) (v : LowVec) (n : Nat) :
+    (shlLimbsLogCap c v n).1.map LowVec.deref = MinLex.shlLimbs (some c) v.deref n := by
+  unfold shlLimbsLogCap MinLex.shlLimbs
+  rw [deref_length]
+  by_cases h1 : n + v.len > c
+  · rw [if_pos h1]
+    have : capOk (some c) (n + v.len) = false := by simp [capOk]; omega
+    rw [this]; rfl
+  · rw [if_neg h1]
+    have hc : capOk (some c) (n + v.len) = true := by simp [capOk]; omega
+    rw [hc]
+    simp only [Bool.not_true, Bool.false_eq_true, if_false]
+    by_cases h2 : v.len = 0
+    · have : v.deref.isEmpty = true := by
+        rw [List.isEmpty_iff, ← List.length_eq_zero_iff, deref_length]; exact h2
+      rw [this, if_neg (not_not.mpr h2)]; rfl
+    · have : v.deref.isEmpty = false := by
+        rw [Bool.eq_false_iff, ne_eq, List.isEmpty_iff, ← List.length_eq_zero_iff, deref_length]; exact h2
+      rw [this, if_pos h2]
+      simp only [Bool.false_eq_true, if_false, Option.map_some, Option.some.injEq]
+      rw [deref_eq_slice]
+      simp only [LowVec.setLen, zeroLog_eq]
+      rw [slice_add, slice_fill, Nat.zero_add]
+      congr 1
+      rw [deref_eq_slice]
+      have e1 : slice (fill 0 (ptrCopyLog v.buf 0 n v.len).1 0 n) n v.len =
+          slice (ptrCopyLog v.buf 0 n v.len).1 n v.len :=
+        slice_congr (fun j hj1 _ => fill_ge _ _ _ _ _ (by omega))
+      rw [e1]
+      unfold ptrCopyLog
+      simp only [readLog_eq, writeLog_eq]
+      have := slice_copyTo v.buf n (slice v.buf 0 v.len)
+      rw [slice_length] at this
+      exact this
+
+/-- the stack vector: refinement of `shlLimbs (some 62)` -/
+theorem shlLimbsLow_refines (v : LowVec) (n : Nat) :
+    (LowVec.shlLimbs v n).map LowVec.deref = MinLex.shlLimbs (some 62) v.deref n :=
+  shlLimbsCap_refines 62 v n
+
+/-- every slot `shl_limbs` touches is inside the buffer, in fact below the NEW length -/
+theorem shlLimbsLogCap_slots (c : Nat) (v : LowVec) (n : Nat) :
+    ∀ a ∈ (shlLimbsLogCap c v n).2, a.slot < n + v.len ∧ a.slot < c := by
+  intro a ha
+  rw [shlLimbsLogCap_log] at ha
+  split at ha
+  · simp at ha
+  · rename_i h
+    have h1 : n + v.len ≤ c := by omega
+    simp only [List.mem_append, List.mem_map, List.mem_range'_1] at ha
+    rcases ha with (⟨i, hi, rfl⟩ | ⟨i, hi, rfl⟩) | ⟨i, hi, rfl⟩ <;> simp only [Access.slot] <;> omega
+
+theorem shlLimbsLog_slots (v : LowVec) (n : Nat) :
+    ∀ a ∈ (shlLimbsLog v n).2, a.slot < n + v.len ∧ a.slot < CAP := shlLimbsLogCap_slots CAP v n
+
+/-- only initialised slots (`< len`) are read -/
+theorem shlLimbsLogCap_reads (c : Nat) (v : LowVec) (n i : Nat) (h : Access.read i ∈ (shlLimbsLogCap c v n).2) :
+    i < v.len := by
+  rw [shlLimbsLogCap_log] at h
+  split at h
+  · simp at h
+  · simp only [List.mem_append, List.mem_map, List.mem_range'_1, Access.read.injEq, reduceCtorEq,
+      and_false, exists_false, or_false, exists_eq_right] at h
+    omega
+
+theorem shlLimbsLog_reads (v : LowVec) (n i : Nat) (h : Access.read i ∈ (shlLimbsLog v n).2) : i < v.len :=
+  shlLimbsLogCap_reads CAP v n i h
+
+/-- every slot below the new length has been written (by the move or by the zero fill) when
+    `set_len` makes it visible -/
+theorem shlLimbsLogCap_written (c : Nat) (v w : LowVec) (n : Nat) (h : (shlLimbsLogCap c v n).1 = some w) :
+    (v.len ≠ 0 → w.len ≤ c) ∧ (v.len ≠ 0 → w.len = n + v.len) ∧ (v.len = 0 → w = v) ∧
+    (v.len ≠ 0 → ∀ i, i < w.len → Access.write i ∈ (shlLimbsLogCap c v n).2) := by
+  have hlog := shlLimbsLogCap_log c v n
+  unfold shlLimbsLogCap at h
+  by_cases h1 : n + v.len > c
+  · rw [if_pos h1] at h; simp at h
+  · rw [if_neg h1] at h
+    by_cases h2 : v.len = 0
+    · rw [if_neg (not_not.mpr h2)] at h
+      simp only [Option.some.injEq] at h
+      subst h
+      exact ⟨fun h => absurd h2 h, fun h => absurd h2 h, fun _ => rfl, fun h => absurd h2 h⟩
+    · rw [if_pos h2] at h
+      simp only [Option.some.injEq] at h
+      have hw : w.len = n + v.len := by rw [← h]; rfl
+      refine ⟨fun _ => by omega, fun _ => hw, fun h => absurd h h2, fun _ i hi => ?_⟩
+      rw [hlog, if_neg (by intro h; rcases h with h | h; exact h1 h; exact h2 h)]
+      simp only [List.mem_append, List.mem_map, List.mem_range'_1, Access.write.injEq, reduceCtorEq,
+        and_false, exists_false, false_or, exists_eq_right]
+      omega
+
+theorem shlLimbsLog_written (v w : LowVec) (n : Nat) (h : LowVec.shlLimbs v n = some w) :
+    w.len ≤ CAP ∧ (v.len ≠ 0 → w.len = n + v.len) ∧ (v.len = 0 → w = v) ∧
+    (v.len ≠ 0 → ∀ i, i < w.len → Access.write i ∈ (shlLimbsLog v n).2) := by
+  obtain ⟨a, b, c, d⟩ := shlLimbsLogCap_written CAP v w n h
+  refine ⟨?_, b, c, d⟩
+  by_cases h0 : v.len = 0
+  · rw [c h0, h0]; exact Nat.zero_le _
+  · exact a h0
+
+/-- consequently nothing `shl_limbs` shows depends on the dead part of the buffer -/
+theorem shlLimbsLow_independent (v1 v2 : LowVec) (n : Nat) (h : v1.deref = v2.deref) :
+    (LowVec.shlLimbs v1 n).map LowVec.deref = (LowVec.shlLimbs v2 n).map LowVec.deref := by
+  rw [shlLimbsLow_refines, shlLimbsLow_refines, h]
+
+end Sites
+end MinLex
+
+namespace MinLex
+namespace Sites
+
+-- ================================================================ C04-local (e): `parse_mantissa` digit arithmetic
+
+/-- all bytes are ASCII digits -/
+def Digits (ds : List UInt8) : Prop := ∀ c ∈ ds, isDigit c = true
+
+/-- loop-head invariant for digit input: in addition to `PMInv`, the temporary is below
+    `10^counter` and nothing has trapped -/
+def PMInvT (s : PM) : Prop := PMInv s ∧ s.value < 10 ^ s.counter ∧ s.trap = false
+
+theorem pow10_le_19 {k : Nat} (h : k ≤ 19) : 10 ^ k ≤ 10 ^ 19 := Nat.pow_le_pow_right (by decide) h
+
+/-- `add_digit!`: with fewer than 19 digits in the temporary, `value * 10 + digit` fits in `u64` -/
+theorem addDigit_noTrap {s : PM} {c : UInt8} (hc : isDigit c = true) (hcnt : s.counter ≤ 18)
+    (hv : s.value < 10 ^ s.counter) (ht : s.trap = false) :
+    (s.addDigit c).trap = false ∧ (s.addDigit c).value = s.value * 10 + digitVal c ∧
+    (s.addDigit c).value < 10 ^ (s.counter + 1) ∧ s.value * 10 + digitVal c < u64Mod := by
+  have hd := ParseNum.digitOf_eq hc
+  have h9 := ParseNum.digitVal_le hc
+  have htr := ParseNum.digitTraps_eq hc
+  have hp : 10 ^ (s.counter + 1) ≤ 10 ^ 19 := pow10_le_19 (by omega)
+  have hps : 10 ^ (s.counter + 1) = 10 ^ s.counter * 10 := Nat.pow_succ _ _
+  have h19 : (10 : Nat) ^ 19 < u64Mod := by unfold u64Mod; norm_num
+  have hlt : s.value * 10 + digitVal c < 10 ^ (s.counter + 1) := by omega
+  have hm1 : s.value * 10 % u64Mod = s.value * 10 := Nat.mod_eq_of_lt (by omega)
+  have hm2 : (s.value * 10 + digitVal c) % u64Mod = s.value * 10 + digitVal c := Nat.mod_eq_of_lt (by omega)
+  unfold PM.addDigit
+  simp only [hd, hm1, hm2, ht, htr, Bool.false_or, Bool.or_eq_false_iff, decide_eq_false_iff_not,
+    ge_iff_le, Nat.not_le]
+  exact ⟨⟨by omega, by omega⟩, trivial, hlt, by omega⟩
+
+theorem flushMax_invT (cap : Option Nat) {s : PM} (ht : s.trap = false) : PMInvT (s.flushMax cap) := by
+  refine ⟨flushMax_inv cap s, ?_, ?_⟩
+  · rw [(flushMax_counter cap s).2.2, (flushMax_counter cap s).1]; decide
+  · unfold PM.flushMax; exact ht
+
+theorem roundUpNonzero_trap {cap : Option Nat} {s s' : PM} {rest : List UInt8}
+    (he : s.roundUpNonzero cap rest = some s') : s'.trap = s.trap ∧ s'.count = s.count + 1 := by
+  unfold PM.roundUpNonzero at he
+  split at he
+  · simp only [Option.some.injEq] at he; rw [← he]; exact ⟨rfl, rfl⟩
+  · simp at he
+
+theorem pmLoop_noTrap (cap : Option Nat) (T : PowTables) (maxDigits : Nat) (ds : List UInt8) (s : PM)
+    (hd : Digits ds) (h : PMInvT s) :
+    (∀ s', pmLoop cap T maxDigits ds s = .exhausted s' → PMInvT s') ∧
+    (∀ s' rest, pmLoop cap T maxDigits ds s = .full s' rest → s'.trap = false) := by
+  induction ds generalizing s with
+  | nil =>
+    unfold pmLoop
+    split
+    · refine ⟨fun s' e => by simp at e, fun s' rest e => ?_⟩
+      simp only [PMOut.full.injEq] at e
+      rw [← e.1, (flushEnd_counter cap T s).2.2.2]; exact h.2.2
+    · refine ⟨fun s' e => ?_, fun s' rest e => by simp at e⟩
+      simp only [PMOut.exhausted.injEq] at e
+      rw [← e]; exact h
+  | cons c rest ih =>
+    have hc : isDigit c = true := hd c (List.mem_cons_self)
+    have hr : Digits rest := fun x hx => hd x (List.mem_cons_of_mem _ hx)
+    unfold pmLoop
+    split
+    · refine ⟨fun s' e => by simp at e, fun s' rest e => ?_⟩
+      simp only [PMOut.full.injEq] at e
+      rw [← e.1, (flushEnd_counter cap T s).2.2.2]; exact h.2.2
+    · simp only []
+      obtain ⟨⟨h18, hcc⟩, hv, ht⟩ := h
+      have ha := addDigit_noTrap hc h18 hv ht
+      have hcn := addDigit_counter s c
+      split
+      · refine ⟨fun s' e => by simp at e, fun s' rest e => ?_⟩
+        simp only [PMOut.full.injEq] at e
+        rw [← e.1, (flushEnd_counter cap T _).2.2.2]; exact ha.1
+      · split
+        · exact ih _ hr (flushMax_invT cap ha.1)
+        · rename_i h1 h2
+          refine ih _ hr ⟨?_, ?_, ha.1⟩
+          · unfold PMInv; unfold pmStep at h2; omega
+          · rw [hcn.1]; exact ha.2.2.1
+
+theorem pmSkipZeros_invT (frac : List UInt8) (s : PM) (hd : Digits frac) (h : PMInvT s) (h0 : s.count = 0) :
+    PMInvT (pmSkipZeros frac s).1 ∧ Digits (pmSkipZeros frac s).2 := by
+  induction frac with
+  | nil => unfold pmSkipZeros; exact ⟨h, hd⟩
+  | cons c rest ih =>
+    have hc : isDigit c = true := hd c (List.mem_cons_self)
+    have hr : Digits rest := fun x hx => hd x (List.mem_cons_of_mem _ hx)
+    unfold pmSkipZeros
+    split
+    · obtain ⟨⟨h18, hcc⟩, hv, ht⟩ := h
+      have ha := addDigit_noTrap hc h18 hv ht
+      have hcn := addDigit_counter s c
+      refine ⟨⟨?_, ?_, ha.1⟩, hr⟩
+      · unfold PMInv; simp only; omega
+      · simp only; rw [hcn.1]; exact ha.2.2.1
+    · exact ih hr
+
+/-- C04-local (e): on digit input (leading zeros or not, any `max_digits`, any table) a checked
+    build never traps in the digit arithmetic of `parse_mantissa` -/
+theorem parseMantissaPM_noTrap (cap : Option Nat) (T : PowTables) {int frac : List UInt8} (maxDigits : Nat)
+    (hi : Digits int) (hf : Digits frac) : (parseMantissaPM cap T int frac maxDigits).trap = false := by
+  have h0 : PMInvT ⟨0, 0, 0, some [], false⟩ := ⟨by unfold PMInv; simp, by simp, rfl⟩
+  have H1 := pmLoop_noTrap cap T maxDigits int _ hi h0
+  unfold parseMantissaPM
+  simp only []
+  cases h1 : pmLoop cap T maxDigits int ⟨0, 0, 0, some [], false⟩ with
+  | full s rest =>
+    have hs := H1.2 s rest h1
+    simp only []
+    cases h2 : s.roundUpNonzero cap rest with
+    | some s' => simp only []; rw [(roundUpNonzero_trap h2).1]; exact hs
+    | none =>
+      simp only []
+      cases h3 : s.roundUpNonzero cap frac with
+      | some s' => simp only []; rw [(roundUpNonzero_trap h3).1]; exact hs
+      | none => exact hs
+  | exhausted s =>
+    simp only []
+    have hs := H1.1 s h1
+    have hs1 : PMInvT (if s.count = 0 then pmSkipZeros frac s else (s, frac)).1 ∧
+        Digits (if s.count = 0 then pmSkipZeros frac s else (s, frac)).2 := by
+      split
+      · exact pmSkipZeros_invT frac s hf hs (by assumption)
+      · exact ⟨hs, hf⟩
+    have H2 := pmLoop_noTrap cap T maxDigits _ _ hs1.2 hs1.1
+    cases h2 : pmLoop cap T maxDigits (if s.count = 0 then pmSkipZeros frac s else (s, frac)).2
+      (if s.count = 0 then pmSkipZeros frac s else (s, frac)).1 with
+    | full s2 rest =>
+      simp only []
+      have hs2 := H2.2 s2 rest h2
+      cases h3 : s2.roundUpNonzero cap rest with
+      | some s' => simp only []; rw [(roundUpNonzero_trap h3).1]; exact hs2
+      | none => exact hs2
+    | exhausted s2 =>
+      simp only []
+      rw [(flushEnd_counter cap T s2).2.2.2]
+      exact (H2.1 s2 h2).2.2
+
+-- ---------------------------------------------------------------- digit count (arbitrary bytes)
+
+theorem pmLoop_count (cap : Option Nat) (T : PowTables) (maxDigits : Nat) (ds : List UInt8) (s : PM)
+    (h : s.count ≤ maxDigits) :
+    (∀ s', pmLoop cap T maxDigits ds s = .exhausted s' → s'.count ≤ maxDigits) ∧
+    (∀ s' rest, pmLoop cap T maxDigits ds s = .full s' rest → s'.count ≤ maxDigits) := by
+  induction ds generalizing s with
+  | nil =>
+    unfold pmLoop
+    split
+    · refine ⟨fun s' e => by simp at e, fun s' rest e => ?_⟩
+      simp only [PMOut.full.injEq] at e
+      rw [← e.1, (flushEnd_counter cap T s).2.1]; exact h
+    · refine ⟨fun s' e => ?_, fun s' rest e => by simp at e⟩
+      simp only [PMOut.exhausted.injEq] at e
+      rw [← e]; exact h
+  | cons c rest ih =>
+    unfold pmLoop
+    split
+    · refine ⟨fun s' e => by simp at e, fun s' rest e => ?_⟩
+      simp only [PMOut.full.injEq] at e
+      rw [← e.1, (flushEnd_counter cap T s).2.1]; exact h
+    · simp only []
+      have hcn := addDigit_counter s c
+      have hle : (s.addDigit c).count ≤ maxDigits := by omega
+      split
+      · refine ⟨fun s' e => by simp at e, fun s' rest e => ?_⟩
+        simp only [PMOut.full.injEq] at e
+        rw [← e.1, (flushEnd_counter cap T _).2.1]; exact hle
+      · split
+        · exact ih _ (by rw [(flushMax_counter cap _).2.1]; exact hle)
+        · exact ih _ hle
+
+theorem pmSkipZeros_count (frac : List UInt8) (s : PM) (h0 : s.count = 0) :
+    (pmSkipZeros frac s).1.count ≤ 1 := by
+  induction frac with
+  | nil => unfold pmSkipZeros; simp only; omega
+  | cons c rest ih =>
+    unfold pmSkipZeros
+    split
+    · simp only; rw [(addDigit_counter s c).2.1]; omega
+    · exact ih
+
+/-- for ARBITRARY bytes: `parse_mantissa` counts at most `max_digits + 1` digits -/
+theorem parseMantissaPM_count (cap : Option Nat) (T : PowTables) (int frac : List UInt8) {maxDigits : Nat}
+    (hmd : 1 ≤ maxDigits) : (parseMantissaPM cap T int frac maxDigits).count ≤ maxDigits + 1 := by
+  have H1 := pmLoop_count cap T maxDigits int ⟨0, 0, 0, some [], false⟩ (Nat.zero_le _)
+  unfold parseMantissaPM
+  simp only []
+  cases h1 : pmLoop cap T maxDigits int ⟨0, 0, 0, some [], false⟩ with
+  | full s rest =>
+    have hs := H1.2 s rest h1
+    simp only []
+    cases h2 : s.roundUpNonzero cap rest with
+    | some s' => simp only []; rw [(roundUpNonzero_trap h2).2]; omega
+    | none =>
+      simp only []
+      cases h3 : s.roundUpNonzero cap frac with
+      | some s' => simp only []; rw [(roundUpNonzero_trap h3).2]; omega
+      | none => simp only []; omega
+  | exhausted s =>
+    simp only []
+    have hs := H1.1 s h1
+    have hs1 : (if s.count = 0 then pmSkipZeros frac s else (s, frac)).1.count ≤ maxDigits := by
+      split
+      · have := pmSkipZeros_count frac s (by assumption); omega
+      · exact hs
+    have H2 := pmLoop_count cap T maxDigits (if s.count = 0 then pmSkipZeros frac s else (s, frac)).2 _ hs1
+    cases h2 : pmLoop cap T maxDigits (if s.count = 0 then pmSkipZeros frac s else (s, frac)).2
+      (if s.count = 0 then pmSkipZeros frac s else (s, frac)).1 with
+    | full s2 rest =>
+      simp only []
+      have hs2 := H2.2 s2 rest h2
+      cases h3 : s2.roundUpNonzero cap rest with
+      | some s' => simp only []; rw [(roundUpNonzero_trap h3).2]; omega
+      | none => simp only []; omega
+    | exhausted s2 =>
+      simp only []
+      rw [(flushEnd_counter cap T s2).2.1]
+      have := H2.1 s2 h2; omega
+
+end Sites
+end MinLex
+
+namespace MinLex
+namespace Sites
+open LemireP
+
+-- ================================================================ C04-local (b): `scientific_exponent`
+
+theorem wrapI32_id {x : Int} (h1 : i32Min ≤ x) (h2 : x ≤ i32Max) : wrapI32 x = x := by
+  unfold wrapI32 i32Min i32Max at *
+  simp only
+  split <;> omega
+
+theorem asI32_id {n : Nat} (h : (n : Int) ≤ i32Max) : asI32 n = n := by
+  unfold asI32; exact wrapI32_id (by unfold i32Min; omega) h
+
+/-- one power-reduction loop: at most `fuel` additions of `step`, none of which wraps -/
+theorem sciLoop_bounds (step lim : Nat) : ∀ (fuel m : Nat) (e : Int),
+    i32Min ≤ e → e + (step * fuel : Nat) ≤ i32Max →
+    e ≤ (sciLoop step lim fuel m e).2 ∧ (sciLoop step lim fuel m e).2 ≤ e + (step * fuel : Nat) := by
+  intro fuel
+  induction fuel with
+  | zero => intro m e _ _; simp [sciLoop]
+  | succ k ih =>
+    intro m e h1 h2
+    have hc : ((step * (k + 1) : Nat) : Int) = (step : Int) + ((step * k : Nat) : Int) := by
+      push_cast; ring
+    unfold sciLoop
+    split
+    · have hw : wrapI32 (e + step) = e + step := wrapI32_id (by omega) (by omega)
+      rw [hw]
+      have := ih (m / lim) (e + step) (by omega) (by omega)
+      omega
+    · simp only; omega
+
+/-- `scientific_exponent` without wrap-around: between `exponent` and `exponent + 44` (44 = the total
+    the three fuel-bounded loops of the model can add; the real value is `exponent + digits − 1`) -/
+theorem scientificExponent_bounds {n : Number} (h1 : i32Min ≤ n.exponent) (h2 : n.exponent + 44 ≤ i32Max) :
+    n.exponent ≤ scientificExponent n ∧ scientificExponent n ≤ n.exponent + 44 := by
+  unfold scientificExponent
+  simp only []
+  have a := sciLoop_bounds 4 10000 8 n.mantissa n.exponent h1 (by norm_num; omega)
+  have b := sciLoop_bounds 2 100 4 (sciLoop 4 10000 8 n.mantissa n.exponent).1
+    (sciLoop 4 10000 8 n.mantissa n.exponent).2 (by omega) (by norm_num at a ⊢; omega)
+  have c := sciLoop_bounds 1 10 4 (sciLoop 2 100 4 (sciLoop 4 10000 8 n.mantissa n.exponent).1
+      (sciLoop 4 10000 8 n.mantissa n.exponent).2).1
+    (sciLoop 2 100 4 (sciLoop 4 10000 8 n.mantissa n.exponent).1
+      (sciLoop 4 10000 8 n.mantissa n.exponent).2).2 (by omega) (by norm_num at a b ⊢; omega)
+  norm_num at a b c
+  omega
+
+/-- the non-wrapping `scientific_exponent` of a `u64` mantissa stays in `i32` -/
+theorem sciTraps_false {n : Number} (hm : n.mantissa < 2 ^ 64) (h1 : i32Min ≤ n.exponent)
+    (h2 : n.exponent + 19 ≤ i32Max) : sciTraps n = false := by
+  have hlen : (Nat.toDigits 10 n.mantissa).length ≤ 20 :=
+    (Nat.length_toDigits_le_iff (b := 10) (by decide) (by decide)).mpr (by
+      have : (2 : Nat) ^ 64 < 10 ^ 20 := by norm_num
+      omega)
+  have hpos := Nat.length_toDigits_pos (b := 10) (n := n.mantissa)
+  unfold sciTraps inI32
+  simp only [Bool.not_eq_eq_eq_not, Bool.not_false, Bool.and_eq_true, decide_eq_true_eq]
+  unfold i32Min i32Max at *
+  omega
+
+/-- the `exponent` of `slow` (`sci_exp + 1 - digits as i32`) stays in `i32` -/
+theorem slowExponent_inI32 {n : Number} {count : Nat} (h1 : i32Min + count ≤ n.exponent)
+    (h2 : n.exponent + 45 ≤ i32Max) (hc : (count : Int) ≤ i32Max) :
+    inI32 (scientificExponent n + 1 - asI32 count) = true ∧
+    wrapI32 (scientificExponent n + 1 - asI32 count) = scientificExponent n + 1 - count := by
+  have hs := scientificExponent_bounds (n := n) (by omega) (by omega)
+  rw [asI32_id hc]
+  refine ⟨?_, wrapI32_id (by omega) (by omega)⟩
+  unfold inI32
+  simp only [Bool.and_eq_true, decide_eq_true_eq]
+  omega
+
+-- ================================================================ C04-local (c), (d): `round`
+
+/-- what `round` needs from its callback: the exponent is advanced by the shift, and the significand is
+    the truncated quotient or its successor -/
+def CbOK (cb : ExtFloat → Nat → ExtFloat) : Prop :=
+  ∀ (fp : ExtFloat) (s : Nat), s ≤ 64 →
+    (cb fp s).exp = fp.exp + s ∧ (cb fp s).mant ≤ fp.mant / 2 ^ s + 1
+
+theorem shr_le_div (m s : Nat) (hs : s ≤ 64) (hm : m < 2 ^ 64) :
+    (if s = 64 then 0 else m >>> s) = m / 2 ^ s := by
+  split
+  · rename_i h; subst h; rw [Nat.div_eq_of_lt hm]
+  · exact Nat.shiftRight_eq_div_pow m s
+
+theorem cbOK_nearest (cb : RoundCb) : ∀ (fp : ExtFloat) (s : Nat), s ≤ 64 → fp.mant < 2 ^ 64 →
+    (roundNearestTieEven cb fp s).exp = fp.exp + s ∧
+    (roundNearestTieEven cb fp s).mant ≤ fp.mant / 2 ^ s + 1 := by
+  intro fp s hs hm
+  unfold roundNearestTieEven
+  simp only []
+  rw [shr_le_div fp.mant s hs hm]
+  refine ⟨trivial, ?_⟩
+  split <;> omega
+
+theorem cbOK_down : ∀ (fp : ExtFloat) (s : Nat), s ≤ 64 → fp.mant < 2 ^ 64 →
+    (roundDown fp s).exp = fp.exp + s ∧ (roundDown fp s).mant ≤ fp.mant / 2 ^ s + 1 := by
+  intro fp s hs hm
+  unfold roundDown
+  simp only []
+  refine ⟨trivial, ?_⟩
+  split
+  · exact Nat.zero_le _
+  · rw [Nat.mod_eq_of_lt (by omega), Nat.shiftRight_eq_div_pow]; omega
+
+/-- C04-local (c): whatever the input exponent, `round` with a callback that returns the truncated
+    quotient or its successor produces a *definite* float: `0 ≤ exp ≤ INFINITE_POWER`, `mant < 2^ms`
+    (or the subnormal carry `mant = 2^ms ∧ exp = 1`), `mant = 0` at `INFINITE_POWER` -/
+theorem round_definite {F : FloatC} (h : F.WF) (cb : ExtFloat → Nat → ExtFloat) (fp : ExtFloat)
+    (hm : fp.mant < 2 ^ 64)
+    (hcb : ∀ s : Nat, s ≤ 64 → (cb fp s).exp = fp.exp + s ∧ (cb fp s).mant ≤ fp.mant / 2 ^ s + 1) :
+    Definite F (round F cb fp) := by
+  have hinf := infPower_ge h
+  have hms := h.ms_le
+  unfold round
+  simp only []
+  split
+  · rename_i hd
+    -- subnormal branch
+    have hsh : (min (-fp.exp + 1) 64).toNat ≤ 64 := by omega
+    have hsh2 : 64 - F.mantissaSize ≤ (min (-fp.exp + 1) 64).toNat := by omega
+    obtain ⟨_, hmant⟩ := hcb _ hsh
+    have hq : fp.mant / 2 ^ (min (-fp.exp + 1) 64).toNat < 2 ^ F.mantissaSize := by
+      have h1 : fp.mant / 2 ^ (min (-fp.exp + 1) 64).toNat ≤ fp.mant / 2 ^ (64 - F.mantissaSize) :=
+        Nat.div_le_div_left (Nat.pow_le_pow_right (by decide) hsh2) (Nat.two_pow_pos _)
+      have h2 : fp.mant / 2 ^ (64 - F.mantissaSize) < 2 ^ F.mantissaSize := by
+        rw [Nat.div_lt_iff_lt_mul (Nat.two_pow_pos _), ← Nat.pow_add,
+          show F.mantissaSize + (64 - F.mantissaSize) = 64 by omega]
+        exact hm
+      omega
+    rw [h.hidden]
+    refine ⟨?_, ?_, ?_, ?_⟩
+    · simp only; split <;> omega
+    · simp only; split <;> omega
+    · simp only; split <;> omega
+    · simp only
+      split
+      · right; exact ⟨by omega, rfl⟩
+      · left; omega
+  · rename_i hd
+    have hts : (64 - (F.mantissaSize : Int) - 1).toNat ≤ 64 := by omega
+    obtain ⟨hexp, _⟩ := hcb _ hts
+    have hE0 : 0 ≤ (cb fp (64 - (F.mantissaSize : Int) - 1).toNat).exp := by rw [hexp]; omega
+    have hand : ∀ x : Nat, x &&& F.mantissaMask < 2 ^ F.mantissaSize := by
+      intro x
+      have := Nat.and_le_right (n := x) (m := F.mantissaMask)
+      rw [h.mantMask] at this ⊢
+      have := Nat.two_pow_pos F.mantissaSize
+      omega
+    split
+    · -- carry
+      split
+      · exact ⟨by simp only; omega, by simp only; omega, fun _ => rfl, Or.inl (Nat.two_pow_pos _)⟩
+      · rename_i hlt
+        simp only at hlt
+        refine ⟨by simp only; omega, by simp only; omega, fun he => ?_, Or.inl (hand _)⟩
+        simp only at he; omega
+    · split
+      · exact ⟨by simp only; omega, by simp only; omega, fun _ => rfl, Or.inl (Nat.two_pow_pos _)⟩
+      · rename_i hlt
+        refine ⟨hE0, ?_, fun he => ?_, Or.inl (hand _)⟩
+        · show (cb fp (64 - (F.mantissaSize : Int) - 1).toNat).exp ≤ F.infinitePower
+          omega
+        · simp only at he; omega
+
+theorem round_nearest_definite {F : FloatC} (h : F.WF) (cb : RoundCb) (fp : ExtFloat) (hm : fp.mant < 2 ^ 64) :
+    Definite F (round F (roundNearestTieEven cb) fp) :=
+  round_definite h _ fp hm (fun s hs => cbOK_nearest cb fp s hs hm)
+
+theorem round_down_definite {F : FloatC} (h : F.WF) (fp : ExtFloat) (hm : fp.mant < 2 ^ 64) :
+    Definite F (round F roundDown fp) :=
+  round_definite h _ fp hm (fun s hs => cbOK_down fp s hs hm)
+
+/-- C04-local (d): `debug_assert!(shift <= 65)` in `round` holds when `exp ≥ −64` -/
+theorem roundTraps_false (F : FloatC) {fp : ExtFloat} (h : -64 ≤ fp.exp) : roundTraps F fp = false := by
+  unfold roundTraps
+  simp only [Bool.and_eq_false_iff, decide_eq_false_iff_not]
+  right; omega
+
+theorem roundTraps_iff (F : FloatC) (fp : ExtFloat) :
+    roundTraps F fp = true ↔ fp.exp < -64 ∧ -fp.exp ≥ 64 - (F.mantissaSize : Int) - 1 := by
+  unfold roundTraps
+  simp only [Bool.and_eq_true, decide_eq_true_eq]
+  omega
+
+-- ================================================================ where the moderate path can decline
+
+/-- Lemire declines (`exp < 0`) only for `SMALLEST_POWER_OF_TEN ≤ q ≤ LARGEST_POWER_OF_TEN`, and then
+    hands over a normalised significand (`debug_assert!(fp.mant & (1 << 63) != 0)` in `slow`) -/
+theorem lemire_declined_range {F : FloatC} (h : LemF F) (num : Number) (hm0 : 0 < num.mantissa)
+    (hm : num.mantissa + 1 < 2 ^ 64) {fp : ExtFloat} (he : lemire genLemire F num = some fp)
+    (hneg : fp.exp < 0) :
+    F.smallestPowerOfTen ≤ num.exponent ∧ num.exponent ≤ F.largestPowerOfTen ∧
+    2 ^ 63 ≤ fp.mant ∧ fp.mant < 2 ^ 64 := by
+  obtain ⟨fp0, he0, hsh⟩ := computeFloat_gen h num.exponent (w := num.mantissa) (by omega)
+  have hmod : (num.mantissa + 1) % u64Mod = num.mantissa + 1 := by
+    unfold u64Mod; exact Nat.mod_eq_of_lt hm
+  obtain ⟨fp', he', _⟩ := computeFloat_gen h num.exponent (w := num.mantissa + 1) hm
+  have fromShape : ∀ {x : ExtFloat}, x.exp < 0 →
+      (Definite F x ∨ (0 < num.mantissa ∧ F.smallestPowerOfTen ≤ num.exponent ∧
+        num.exponent ≤ F.largestPowerOfTen ∧ Declined F num.exponent (clz64 num.mantissa) x)) →
+      F.smallestPowerOfTen ≤ num.exponent ∧ num.exponent ≤ F.largestPowerOfTen ∧
+      2 ^ 63 ≤ x.mant ∧ x.mant < 2 ^ 64 := by
+    intro x hx hs
+    rcases hs with hd | ⟨_, a, b, hd⟩
+    · have := hd.1; omega
+    · exact ⟨a, b, hd.2.1, hd.2.2.1⟩
+  unfold lemire at he
+  rw [he0] at he; simp only [] at he
+  split at he
+  · rw [hmod, he'] at he; simp only [] at he
+    split at he
+    · rename_i hne
+      have hin : F.smallestPowerOfTen ≤ num.exponent ∧ num.exponent ≤ F.largestPowerOfTen := by
+        by_contra hcon
+        have := computeFloat_out_of_range F (q := num.exponent) (w := num.mantissa)
+          (w' := num.mantissa + 1) (by omega) (by omega) (by omega)
+        rw [he0, he'] at this
+        have e : fp0 = fp' := Option.some.inj this
+        rw [e, extFloat_bne_self] at hne
+        exact Bool.false_ne_true hne
+      have hs := h.sm; have hl := h.lg
+      obtain ⟨r, hr, hd⟩ := computeError_gen h hm0 (by omega : num.mantissa < 2 ^ 64)
+        (by omega : -342 ≤ num.exponent) (by omega)
+      rw [hr] at he
+      simp only [Option.some.injEq] at he
+      rw [← he]
+      exact ⟨hin.1, hin.2, hd.2.1, hd.2.2.1⟩
+    · simp only [Option.some.injEq] at he
+      rw [← he] at hneg ⊢
+      exact fromShape hneg hsh
+  · simp only [Option.some.injEq] at he
+    rw [← he] at hneg ⊢
+    exact fromShape hneg hsh
+
+end Sites
+end MinLex
+
+namespace MinLex
+namespace Sites
+
+-- ================================================================ whole parser: non-interference
+
+/-- two table records that agree on everything except, possibly, the slots of `SMALL_INT_POW10`
+    outside `1 … 19` and the slots of `SMALL_INT_POW5` outside `1 … 26` -/
+structure AgreeTables (T T' : PowTables) : Prop where
+  compact : T.compact = T'.compact
+  large : T.largePow5 = T'.largePow5
+  step : T.largePow5Step = T'.largePow5Step
+  pow10 : ∀ k, 1 ≤ k → k ≤ 19 → T.smallIntPow10.getD k 0 = T'.smallIntPow10.getD k 0
+  pow5 : ∀ k, 1 ≤ k → k ≤ 26 → T.smallIntPow5.getD k 0 = T'.smallIntPow5.getD k 0
+
+theorem AgreeTables.agree10 {T T' : PowTables} (h : AgreeTables T T') : Agree10 T T' := ⟨h.compact, h.pow10⟩
+
+theorem bigintPow_congr (cap : Option Nat) {T T' : PowTables} (h : AgreeTables T T') (x : Big) (base exp : Nat) :
+    bigintPow cap T x base exp = bigintPow cap T' x base exp := by
+  unfold bigintPow
+  rw [pow_congr cap T T' h.compact h.large h.step h.pow5]
+
+theorem parseMantissa_congr (cap : Option Nat) {T T' : PowTables} (h : AgreeTables T T')
+    (int frac : List UInt8) (md : Nat) : parseMantissa cap T int frac md = parseMantissa cap T' int frac md := by
+  unfold parseMantissa
+  rw [parseMantissaPM_congr cap h.agree10]
+
+theorem slow_congr (cap : Option Nat) {T T' : PowTables} (h : AgreeTables T T') (F : FloatC) (num : Number)
+    (fp : ExtFloat) (int frac : List UInt8) :
+    slow cap T F num fp int frac = slow cap T' F num fp int frac := by
+  unfold slow positiveDigitComp negativeDigitComp
+  simp only [parseMantissa_congr cap h, bigintPow_congr cap h]
+
+/-- C08, non-interference form for the whole parser: on ARBITRARY bytes the result of `parse_float`
+    is unchanged when everything outside the guarded index ranges of the three unchecked tables
+    (`SMALL_F*_POW10` beyond `MAX_EXPONENT_FAST_PATH`, `SMALL_INT_POW10` beyond 19, `SMALL_INT_POW5`
+    beyond 26 — in particular whatever lies past the end of the tables) is replaced by anything. -/
+theorem parseFloat_congr (E E' : Env) (F : FloatC) (hcfg : E.cfg = E'.cfg) (hlem : E.lem = E'.lem)
+    (hbel : E.bel = E'.bel) (hpow : AgreeTables E.pow E'.pow)
+    (hpw : ∀ k, k ≤ max (-F.minExponentFastPath).toNat F.maxExponentFastPath.toNat →
+      E.powFastPath F k = E'.powFastPath F k)
+    (hF : (F.maxExponentDisguisedFastPath - F.maxExponentFastPath).toNat ≤ 19)
+    (int frac : List UInt8) (e : Int) : parseFloat E F int frac e = parseFloat E' F int frac e := by
+  have hfast : ∀ n, tryFastPath F (E.powFastPath F) (intPow10 E.cfg.compact E.pow.smallIntPow10) n =
+      tryFastPath F (E'.powFastPath F) (intPow10 E'.cfg.compact E'.pow.smallIntPow10) n := by
+    intro n
+    have hb := tryFastPathSites_bound F n
+    apply tryFastPath_congr
+    · intro k hk; exact hpw k (hb.1 k hk)
+    · intro k hk
+      have hk19 : k ≤ 19 := Nat.le_trans (hb.2 k hk) hF
+      have hk1 : 1 ≤ k := by
+        unfold tryFastPathSites at hk
+        by_cases h1 : isFastPath F n = true
+        · simp only [h1, if_true] at hk
+          by_cases h2 : n.exponent ≤ F.maxExponentFastPath
+          · simp only [h2, if_true] at hk
+            split at hk <;> simp at hk
+          · simp only [h2, if_false, List.mem_singleton] at hk
+            have := (S3_index h1 h2).2
+            omega
+        · simp [h1] at hk
+      unfold intPow10
+      rw [← hcfg]
+      split
+      · rfl
+      · exact hpow.pow10 k hk1 hk19
+  have hmod : ∀ n, moderatePath E F n = moderatePath E' F n := by
+    intro n; unfold moderatePath; rw [hcfg, hlem, hbel]
+  have hcap : E.cap = E'.cap := by unfold Env.cap; rw [hcfg]
+  unfold parseFloat
+  simp only [hfast, hmod, hcap, slow_congr _ hpow]
+
+end Sites
+end MinLex
+
+namespace MinLex
+namespace Sites
+open LemireP
+
+-- ================================================================ limbs stay limbs (ARBITRARY bytes)
+/-! `AllLt` (every limb `< 2^64`) of every big integer the slow path builds, with no hypothesis on the
+    value (zero included) and no hypothesis on the digits. -/
+
+/-- every table entry is a `u64` -/
+structure TablesLt (T : PowTables) : Prop where
+  pow5 : AllLt T.smallIntPow5
+  pow10 : AllLt T.smallIntPow10
+  large : AllLt T.largePow5
+
+theorem genPow_tablesLt (c : Bool) : TablesLt (genPow c) :=
+  ⟨by show AllLt Gen.smallIntPow5; decide +kernel, by show AllLt Gen.smallIntPow10; decide +kernel,
+   by show AllLt Gen.largePow5; decide +kernel⟩
+
+theorem getD_lt {l : List Nat} (h : AllLt l) (k : Nat) : l.getD k 0 < B := by
+  rw [List.getD_eq_getElem?_getD]
+  cases hk : l[k]? with
+  | none => exact B_pos
+  | some v => exact h v (List.mem_of_getElem? hk)
+
+theorem intPow10_lt {T : PowTables} (h : TablesLt T) (k : Nat) : intPow10 T.compact T.smallIntPow10 k < B := by
+  unfold intPow10; split
+  · exact Nat.mod_lt _ B_pos
+  · exact getD_lt h.pow10 k
+
+theorem intPow5_lt {T : PowTables} (h : TablesLt T) (k : Nat) : intPow5 T.compact T.smallIntPow5 k < B := by
+  unfold intPow5; split
+  · exact Nat.mod_lt _ B_pos
+  · exact getD_lt h.pow5 k
+
+theorem smallMul_allLt {cap : Option Nat} {x r : Big} {y : Nat} (hx : AllLt x) (hy : y < B) (hf : Fits cap x)
+    (h : smallMul cap x y = some r) : AllLt r := (smallMul_spec hx hy hf h).2.1
+
+theorem smallAdd_allLt {cap : Option Nat} {x r : Big} {y : Nat} (hx : AllLt x) (hy : y < B) (hf : Fits cap x)
+    (h : smallAdd cap x y = some r) : AllLt r := (smallAddFrom_spec hx hy (Nat.zero_le _) hf h).2.1
+
+theorem largeMul_allLt {cap : Option Nat} {x y r : Big} (hx : AllLt x) (hy : AllLt y) (hf : Fits cap x)
+    (h : largeMul cap x y = some r) : AllLt r := by
+  by_cases hx0 : x = []
+  · subst hx0
+    unfold largeMul at h
+    split at h
+    · exact (smallMul_spec hx (AllLt_singleton.mp hy) hf h).2.1
+    · unfold longMul at h
+      cases h1 : vecTryFrom cap y with
+      | none => rw [h1] at h; simp at h
+      | some z0 =>
+        rw [h1] at h
+        simp only [Option.some.injEq] at h
+        obtain ⟨rfl, _⟩ := vecTryFrom_some h1
+        rw [← h]; exact normalize_allLt hy
+  · exact (largeMul_spec hx hy hx0 hf h).2.1
+
+theorem powLargeLoop_allLt {cap : Option Nat} {T : PowTables} (hT : TablesLt T) :
+    ∀ (fuel : Nat) (x : Big) (e : Nat) (x' : Big) (e' : Nat), AllLt x → Fits cap x →
+    powLargeLoop cap T fuel x e = some (x', e') → AllLt x' := by
+  intro fuel
+  induction fuel with
+  | zero =>
+    intro x e x' e' hx _ h
+    unfold powLargeLoop at h
+    simp only [Option.some.injEq, Prod.mk.injEq] at h
+    rw [← h.1]; exact hx
+  | succ n ih =>
+    intro x e x' e' hx hf h
+    unfold powLargeLoop at h
+    split at h
+    · cases hm : largeMul cap x T.largePow5 with
+      | none => rw [hm] at h; simp at h
+      | some y =>
+        rw [hm] at h
+        exact ih _ _ _ _ (largeMul_allLt hx hT.large hf hm) (largeMul_fits hf hm) h
+    · simp only [Option.some.injEq, Prod.mk.injEq] at h
+      rw [← h.1]; exact hx
+
+theorem pow_allLt {cap : Option Nat} {T : PowTables} (hT : TablesLt T) {x r : Big} {exp : Nat}
+    (hx : AllLt x) (hf : Fits cap x) (h : pow cap T x exp = some r) : AllLt r := by
+  unfold pow at h
+  simp only [] at h
+  split at h
+  · simp at h
+  · rename_i x1 e1 h1
+    have h1' : AllLt x1 ∧ Fits cap x1 := by
+      split at h1
+      · simp only [Option.some.injEq, Prod.mk.injEq] at h1; rw [← h1.1]; exact ⟨hx, hf⟩
+      · exact ⟨powLargeLoop_allLt hT _ _ _ _ _ hx hf h1, powLargeLoop_fits _ _ _ _ _ hf h1⟩
+    split at h
+    · simp at h
+    · rename_i x2 e2 h2
+      obtain ⟨_, hx2, hf2, _⟩ := powSmallLoop_spec (e1 + 1) h1'.1 h1'.2 h2
+      split at h
+      · exact smallMul_allLt hx2 (intPow5_lt hT e2) hf2 h
+      · simp only [Option.some.injEq] at h; rw [← h]; exact hx2
+
+theorem bigintPow_allLt {cap : Option Nat} {T : PowTables} (hT : TablesLt T) {x r : Big} {base exp : Nat}
+    (hx : AllLt x) (hf : Fits cap x) (h : bigintPow cap T x base exp = some r) : AllLt r := by
+  unfold bigintPow at h
+  split at h
+  · simp at h
+  · rename_i x1 h1
+    have h1' : AllLt x1 ∧ Fits cap x1 := by
+      split at h1
+      · exact ⟨pow_allLt hT hx hf h1, pow_fits hf h1⟩
+      · simp only [Option.some.injEq] at h1; rw [← h1]; exact ⟨hx, hf⟩
+    split at h
+    · exact (shl_spec h1'.1 h1'.2 h).2.1
+    · simp only [Option.some.injEq] at h; rw [← h]; exact h1'.1
+
+/-- the state of `parse_mantissa`: temporary is a `u64`, big integer has `u64` limbs and fits -/
+def PMGood (cap : Option Nat) (s : PM) : Prop :=
+  s.value < B ∧ ∀ r, s.result = some r → AllLt r ∧ Fits cap r
+
+theorem pmMulAdd_good {cap : Option Nat} {r : Option Big} {power value : Nat} {z : Big}
+    (hr : ∀ x, r = some x → AllLt x ∧ Fits cap x) (hp : power < B) (hv : value < B)
+    (h : pmMulAdd cap r power value = some z) : AllLt z ∧ Fits cap z := by
+  unfold pmMulAdd at h
+  cases r with
+  | none => simp at h
+  | some x =>
+    simp only [] at h
+    cases h1 : smallMul cap x power with
+    | none => rw [h1] at h; simp at h
+    | some y =>
+      rw [h1] at h
+      obtain ⟨hx, hf⟩ := hr x rfl
+      have hy := smallMul_allLt hx hp hf h1
+      have hfy := smallMul_fits hf h1
+      exact ⟨smallAdd_allLt hy hv hfy h, smallAdd_fits hfy h⟩
+
+theorem addDigit_good {cap : Option Nat} {s : PM} (c : UInt8) (h : PMGood cap s) : PMGood cap (s.addDigit c) := by
+  refine ⟨?_, ?_⟩
+  · unfold PM.addDigit; simp only
+    have : u64Mod = B := rfl
+    rw [this]; exact Nat.mod_lt _ B_pos
+  · rw [(addDigit_counter s c).2.2]; exact h.2
+
+theorem flushMax_good {cap : Option Nat} {s : PM} (h : PMGood cap s) : PMGood cap (s.flushMax cap) := by
+  refine ⟨by rw [(flushMax_counter cap s).2.2]; exact B_pos, ?_⟩
+  intro r hr
+  unfold PM.flushMax at hr
+  exact pmMulAdd_good h.2 (by unfold pmMaxNative B; omega) h.1 hr
+
+theorem flushEnd_good {cap : Option Nat} {T : PowTables} (hT : TablesLt T) {s : PM} (h : PMGood cap s) :
+    PMGood cap (s.flushEnd cap T) := by
+  refine ⟨by rw [(flushEnd_counter cap T s).2.2.1]; exact h.1, ?_⟩
+  intro r hr
+  unfold PM.flushEnd at hr
+  split at hr
+  · exact pmMulAdd_good h.2 (intPow10_lt hT _) h.1 hr
+  · exact h.2 r hr
+
+theorem roundUpNonzero_good {cap : Option Nat} {s s' : PM} {rest : List UInt8} (h : PMGood cap s)
+    (he : s.roundUpNonzero cap rest = some s') : PMGood cap s' := by
+  unfold PM.roundUpNonzero at he
+  split at he
+  · simp only [Option.some.injEq] at he
+    rw [← he]
+    refine ⟨h.1, ?_⟩
+    intro r hr
+    exact pmMulAdd_good h.2 (by unfold B; omega) (by unfold B; omega) hr
+  · simp at he
+
+theorem pmLoop_good (cap : Option Nat) {T : PowTables} (hT : TablesLt T) (maxDigits : Nat) (ds : List UInt8)
+    (s : PM) (h : PMGood cap s) :
+    (∀ s', pmLoop cap T maxDigits ds s = .exhausted s' → PMGood cap s') ∧
+    (∀ s' rest, pmLoop cap T maxDigits ds s = .full s' rest → PMGood cap s') := by
+  induction ds generalizing s with
+  | nil =>
+    unfold pmLoop
+    split
+    · refine ⟨fun s' e => by simp at e, fun s' rest e => ?_⟩
+      simp only [PMOut.full.injEq] at e
+      rw [← e.1]; exact flushEnd_good hT h
+    · refine ⟨fun s' e => ?_, fun s' rest e => by simp at e⟩
+      simp only [PMOut.exhausted.injEq] at e
+      rw [← e]; exact h
+  | cons c rest ih =>
+    unfold pmLoop
+    split
+    · refine ⟨fun s' e => by simp at e, fun s' rest e => ?_⟩
+      simp only [PMOut.full.injEq] at e
+      rw [← e.1]; exact flushEnd_good hT h
+    · simp only []
+      split
+      · refine ⟨fun s' e => by simp at e, fun s' rest e => ?_⟩
+        simp only [PMOut.full.injEq] at e
+        rw [← e.1]; exact flushEnd_good hT (addDigit_good c h)
+      · split
+        · exact ih _ (flushMax_good (addDigit_good c h))
+        · exact ih _ (addDigit_good c h)
+
+theorem pmSkipZeros_good {cap : Option Nat} (frac : List UInt8) (s : PM) (h : PMGood cap s) :
+    PMGood cap (pmSkipZeros frac s).1 := by
+  induction frac with
+  | nil => unfold pmSkipZeros; exact h
+  | cons c rest ih =>
+    unfold pmSkipZeros
+    split
+    · exact addDigit_good c h
+    · exact ih
+
+theorem parseMantissaPM_good (cap : Option Nat) {T : PowTables} (hT : TablesLt T) (int frac : List UInt8)
+    (maxDigits : Nat) : PMGood cap (parseMantissaPM cap T int frac maxDigits) := by
+  have h0 : PMGood cap ⟨0, 0, 0, some [], false⟩ := by
+    refine ⟨B_pos, ?_⟩
+    intro r hr; simp only [Option.some.injEq] at hr; rw [← hr]; exact ⟨AllLt_nil, fits_nil cap⟩
+  have H1 := pmLoop_good cap hT maxDigits int _ h0
+  unfold parseMantissaPM
+  simp only []
+  cases h1 : pmLoop cap T maxDigits int ⟨0, 0, 0, some [], false⟩ with
+  | full s rest =>
+    have hs := H1.2 s rest h1
+    simp only []
+    cases h2 : s.roundUpNonzero cap rest with
+    | some s' => exact roundUpNonzero_good hs h2
+    | none =>
+      simp only []
+      cases h3 : s.roundUpNonzero cap frac with
+      | some s' => exact roundUpNonzero_good hs h3
+      | none => exact hs
+  | exhausted s =>
+    simp only []
+    have hs := H1.1 s h1
+    have hs1 : PMGood cap (if s.count = 0 then pmSkipZeros frac s else (s, frac)).1 := by
+      split
+      · exact pmSkipZeros_good frac s hs
+      · exact hs
+    have H2 := pmLoop_good cap hT maxDigits (if s.count = 0 then pmSkipZeros frac s else (s, frac)).2 _ hs1
+    cases h2 : pmLoop cap T maxDigits (if s.count = 0 then pmSkipZeros frac s else (s, frac)).2
+      (if s.count = 0 then pmSkipZeros frac s else (s, frac)).1 with
+    | full s2 rest =>
+      simp only []
+      have hs2 := H2.2 s2 rest h2
+      cases h3 : s2.roundUpNonzero cap rest with
+      | some s' => exact roundUpNonzero_good hs2 h3
+      | none => exact hs2
+    | exhausted s2 =>
+      simp only []
+      exact flushEnd_good hT (H2.1 s2 h2)
+
+theorem parseMantissa_allLt {cap : Option Nat} {T : PowTables} (hT : TablesLt T) {int frac : List UInt8}
+    {maxDigits : Nat} {r : Big} {n : Nat} (h : parseMantissa cap T int frac maxDigits = some (r, n)) :
+    AllLt r := by
+  unfold parseMantissa at h
+  simp only [] at h
+  split at h
+  · simp at h
+  · rename_i r' hr
+    simp only [Option.some.injEq, Prod.mk.injEq] at h
+    rw [← h.1]
+    exact ((parseMantissaPM_good cap hT int frac maxDigits).2 r' hr).1
+
+/-- `hi64` of `u64` limbs is a `u64` -/
+theorem hi64_lt {x : Big} (hx : AllLt x) : (hi64 x).1 < 2 ^ 64 := by
+  have hB : B = 2 ^ 64 := B_eq
+  have h1 : ∀ r0, (u64ToHi64_1 r0).1 < 2 ^ 64 := by
+    intro r0; unfold u64ToHi64_1 shl64; simp only; rw [← hB]; exact Nat.mod_lt _ B_pos
+  have h2 : ∀ r0 r1, r0 < B → r1 < B → (u64ToHi64_2 r0 r1).1 < 2 ^ 64 := by
+    intro r0 r1 hr0 hr1
+    unfold u64ToHi64_2; simp only
+    split
+    · omega
+    · apply Nat.or_lt_two_pow
+      · unfold shl64; rw [← hB]; exact Nat.mod_lt _ B_pos
+      · unfold shr64
+        have : r1 / 2 ^ ((64 - clz64 r0) % 64) ≤ r1 := Nat.div_le_self _ _
+        omega
+  have hrev : AllLt x.reverse := AllLt_reverse.mpr hx
+  unfold hi64
+  split
+  · simp
+  · exact h1 _
+  · rename_i r0 r1 he
+    rw [he] at hrev
+    exact h2 r0 r1 (hrev r0 (by simp)) (hrev r1 (by simp))
+  · rename_i r0 r1 t _ he
+    rw [he] at hrev
+    exact h2 r0 r1 (hrev r0 (by simp)) (hrev r1 (by simp))
+
+/-- for ARBITRARY bytes: whatever the slow path returns is a *definite* float (so `f32::from_bits`'s
+    debug assertion holds and the bit pattern is at most that of `+∞`) -/
+theorem slow_definite {cap : Option Nat} {T : PowTables} {F : FloatC} (hF : F.WF) (hT : TablesLt T)
+    {num : Number} {fp : ExtFloat} (hm : fp.mant < 2 ^ 64) {int frac : List UInt8} {r : ExtFloat}
+    (h : slow cap T F num fp int frac = some r) : Definite F r := by
+  unfold slow at h
+  simp only [] at h
+  cases h1 : parseMantissa cap T int frac F.maxDigits with
+  | none => rw [h1] at h; simp at h
+  | some p =>
+    obtain ⟨bigmant, digits⟩ := p
+    rw [h1] at h
+    simp only [] at h
+    have hb := parseMantissa_allLt hT h1
+    have hfb := parseMantissa_fits h1
+    split at h
+    · unfold positiveDigitComp at h
+      cases h2 : bigintPow cap T bigmant 10 (wrapI32 (scientificExponent num + 1 - asI32 digits) % 4294967296).toNat with
+      | none => rw [h2] at h; simp at h
+      | some bm =>
+        rw [h2] at h
+        simp only [Option.some.injEq] at h
+        rw [← h]
+        exact round_nearest_definite hF _ _ (hi64_lt (bigintPow_allLt hT hb hfb h2))
+    · unfold negativeDigitComp at h
+      simp only [] at h
+      split at h
+      · simp at h
+      · split at h
+        · simp at h
+        · simp only [Option.some.injEq] at h
+          rw [← h]
+          exact round_nearest_definite hF _ _ hm
+
+end Sites
+end MinLex
+
+namespace MinLex
+namespace Sites
+
+theorem fbh_mant_lt (F : FloatC) (bits : Nat) : (fbh F bits).mant < B := by
+  unfold fbh; simp only
+  have : u64Mod = B := rfl
+  rw [this]; exact Nat.mod_lt _ B_pos
+
+/-- for ARBITRARY bytes: every big integer the slow path builds has `u64` limbs -/
+theorem slowI_allLt {cap : Option Nat} {T : PowTables} (hT : TablesLt T) {F : FloatC} {num : Number}
+    {fp : ExtFloat} {int frac : List UInt8} {r : ExtFloat} {l : List Big} (hc : capOk cap 1 = true)
+    (h : slowI cap T F num fp int frac = some (r, l)) : ∀ x ∈ l, AllLt x := by
+  unfold slowI at h
+  simp only [] at h
+  cases h1 : parseMantissa cap T int frac F.maxDigits with
+  | none => rw [h1] at h; simp at h
+  | some p =>
+    obtain ⟨bigmant, digits⟩ := p
+    rw [h1] at h
+    simp only [] at h
+    have hb := parseMantissa_allLt hT h1
+    have hfb := parseMantissa_fits h1
+    have key : ∀ o : Option (ExtFloat × List Big),
+        (∀ r' l', o = some (r', l') → ∀ x ∈ l', AllLt x) →
+        o.map (fun p => (p.1, bigmant :: p.2)) = some (r, l) → ∀ x ∈ l, AllLt x := by
+      intro o ho he
+      cases o with
+      | none => simp at he
+      | some p =>
+        obtain ⟨r', l'⟩ := p
+        simp only [Option.map_some, Option.some.injEq, Prod.mk.injEq] at he
+        rw [← he.2]
+        intro x hx
+        rcases List.mem_cons.mp hx with rfl | hx
+        · exact hb
+        · exact ho r' l' rfl x hx
+    split at h
+    · refine key _ (fun r' l' e => ?_) h
+      unfold positiveDigitCompI at e
+      cases h2 : bigintPow cap T bigmant 10
+          (wrapI32 (scientificExponent num + 1 - asI32 digits) % 4294967296).toNat with
+      | none => rw [h2] at e; simp at e
+      | some bm =>
+        rw [h2] at e
+        simp only [Option.some.injEq, Prod.mk.injEq] at e
+        rw [← e.2]
+        intro x hx
+        simp only [List.mem_singleton] at hx
+        rw [hx]; exact bigintPow_allLt hT hb hfb h2
+    · refine key _ (fun r' l' e => ?_) h
+      unfold negativeDigitCompI at e
+      simp only [] at e
+      have hl0 := (fromU64_spec (fbh_mant_lt F (extendedToFloat F (round F roundDown fp)))).2.1
+      have hf0 := fromU64_fits hc (fbh F (extendedToFloat F (round F roundDown fp))).mant
+      split at e
+      · simp at e
+      · rename_i theor1 h1'
+        have ht1 : AllLt theor1 ∧ Fits cap theor1 := by
+          split at h1'
+          · exact ⟨bigintPow_allLt hT hl0 hf0 h1', bigintPow_fits hf0 h1'⟩
+          · simp only [Option.some.injEq] at h1'; rw [← h1']; exact ⟨hl0, hf0⟩
+        split at e
+        · simp at e
+        · rename_i realDigits theorDigits h2
+          simp only [Option.some.injEq, Prod.mk.injEq] at e
+          have hboth : AllLt realDigits ∧ AllLt theorDigits := by
+            split at h2
+            · split at h2
+              · simp at h2
+              · rename_i t ht
+                simp only [Option.some.injEq, Prod.mk.injEq] at h2
+                rw [← h2.1, ← h2.2]
+                exact ⟨hb, bigintPow_allLt hT ht1.1 ht1.2 ht⟩
+            · split at h2
+              · split at h2
+                · simp at h2
+                · rename_i t ht
+                  simp only [Option.some.injEq, Prod.mk.injEq] at h2
+                  rw [← h2.1, ← h2.2]
+                  exact ⟨bigintPow_allLt hT hb hfb ht, ht1.1⟩
+              · simp only [Option.some.injEq, Prod.mk.injEq] at h2
+                rw [← h2.1, ← h2.2]
+                exact ⟨hb, ht1.1⟩
+          rw [← e.2]
+          intro x hx
+          simp only [List.mem_cons, List.not_mem_nil, or_false] at hx
+          rcases hx with rfl | rfl | rfl | rfl
+          · exact hl0
+          · exact ht1.1
+          · exact hboth.1
+          · exact hboth.2
 
 end Sites
 end MinLex
